@@ -130,6 +130,33 @@ def run(ctx):
     for k in keys:
         small(k)
 
+    # protocols that *end* with a stream, read through the batched C++ API (CopyTo with buffers of 2, 3 and 64 items) and item by item:
+    # every prefix, in particular the cuts on block boundaries where a batch read has just delivered complete blocks
+    def tail_streams():
+        rec = Rec("TsRec", [("id", P("int32")), ("name", P("string")), ("w", Opt(P("float64")))])
+        pkg = Pkg("TailStreams", [rec, Proto("TsOne", [("head", P("int32")), ("items", S(N("TsRec")))]), Proto("TsOnly", [("nums", S(P("uint64")))]),
+                                  Proto("TsTwo", [("a", S(P("int16"))), ("b", S(N("TsRec")))])])
+        m = rt.prepare_model(ctx, "tailstreams", pkg, ["plain", "asan"])
+        if m is None:
+            raise Inconclusive("tail-stream model did not build")
+        c = m.codec
+        for proto in pkg.protocols():
+            nst = sum(1 for _, t in proto.steps if isinstance(c.fq(t), S))
+            eps = [rt.CppEndpoint(m, "plain"), rt.PyEndpoint(m)] + [rt.CppEndpoint(m, fl, bufs=[b] * nst) for fl, b in (("plain", 2), ("plain", 3), ("asan", 3), ("plain", 64))]
+            for ep, b in zip(eps[2:], (2, 3, 3, 64)):
+                ep.name = "%s-batch%d" % (ep.name, b)
+            sidx = [i for i, (_, t) in enumerate(proto.steps) if isinstance(c.fq(t), S)]
+            for parts in ("one-block", "block-per-item", "3-3-1"):
+                vg = values.ValueGen(c, rng("C16ts", proto.name, parts), json_safe=True, max_len=3)
+                vals = vg.steps(proto, stream_len=7)
+                pt = None if parts == "one-block" else {i: ([1] * 7 if parts == "block-per-item" else [3, 3, 1]) for i in sidx}
+                data = c.encode_stream(proto, m.schema(proto.name), vals, partitions=pt)
+                hdr = len(c.encode_stream(proto, m.schema(proto.name), vals, upto=0))
+                cuts = list(range(hdr, len(data)))
+                run_stream(ctx, m, proto, vals, data, cuts, eps, "tail-stream %s (%s)" % (proto.name, parts))
+        m.close()
+    tail_streams()
+
     # large streams: the sweep model, padded
     pkg, cases = corpus.sweep_package()
     m = rt.prepare_model(ctx, "sweep", pkg, flavors)
